@@ -19,12 +19,14 @@ def run_stream(cmd, lines, op_timeout, cwd=None):
     pos = 0
     stderr_tail = ""
     while pos < len(lines):
-        ctx = None
+        ctx = []
         for j in range(pos - 1, -1, -1):
             if lines[j].startswith("img "):
-                ctx = lines[j]; break
-        feed = ([ctx] if ctx is not None else []) + lines[pos:]
-        skip = 1 if ctx is not None else 0
+                # the image line plus every later state-changing conversion before `pos`
+                ctx = [lines[j]] + [l for l in lines[j + 1:pos] if l.startswith("img_to_")]
+                break
+        feed = ctx + lines[pos:]
+        skip = len(ctx)
         proc = subprocess.Popen(cmd, stdin=subprocess.PIPE, stdout=subprocess.PIPE, stderr=subprocess.PIPE, env=ENV, cwd=cwd)
         def writer():
             try:
